@@ -7,4 +7,4 @@ Definition keepZ : Z := Z.add 0 0.
 Definition keepNat : nat := length (@nil N).
 Extraction "model_c08.ml" keepN keepZ keepNat run_model judge strategy_of_N explicit_input value_entries
   ma_of_entries value_new mkValue mkUtxo mkOut mkScenario imap_ids imap_of_list add_inputs_from legacy current
-  premises_b derived_ffi lf_prefix_outpoint mkVariant judge_insufficient.
+  premises_b derived_ffi lf_prefix_outpoint mkVariant judge_insufficient scenario_buildable.
